@@ -69,6 +69,7 @@ fn main() {
             eprintln!("{msg}");
         }
     }));
+    util::inflight_init(&out);
     let meta = match prop {
         "C12" => c12::generate(tier, seed, &out, nshards, replay.as_deref()),
         "C14" => c14::generate(tier, seed, &out, nshards, replay.as_deref()),
@@ -86,6 +87,7 @@ fn main() {
             std::process::exit(2);
         }
     };
+    util::inflight_done();
     std::fs::write(out.join("meta.json"), serde_json::to_string_pretty(&meta.to_json()).unwrap()).unwrap();
     println!("generated {} cases for {}", meta.evaluations, prop);
 }
